@@ -1666,6 +1666,7 @@ func (c *Configuration) buildMinionConfigs(masterHost string) ([]*MinionConfigur
 func (c *Configuration) buildVirtualServerRoutes(vs *conf_v1.VirtualServer) ([]*conf_v1.VirtualServerRoute, []string) {
 	var vsrs []*conf_v1.VirtualServerRoute
 	var warnings []string
+	attached := make(map[string]bool)
 
 	for _, r := range vs.Spec.Routes {
 		if r.Route == "" {
@@ -1677,6 +1678,14 @@ func (c *Configuration) buildVirtualServerRoutes(vs *conf_v1.VirtualServer) ([]*
 		// if route is defined without a namespace, use the namespace of VirtualServer.
 		if !strings.Contains(r.Route, "/") {
 			vsrKey = fmt.Sprintf("%s/%s", vs.Namespace, r.Route)
+		}
+
+		// a VirtualServerRoute is attached to a VirtualServer at most once: attaching it again would
+		// generate its upstreams and locations a second time.
+		if attached[vsrKey] {
+			warning := fmt.Sprintf("VirtualServerRoute %s is referenced by more than one route; the reference in the route %s is ignored", vsrKey, r.Path)
+			warnings = append(warnings, warning)
+			continue
 		}
 
 		vsr, exists := c.virtualServerRoutes[vsrKey]
@@ -1694,6 +1703,7 @@ func (c *Configuration) buildVirtualServerRoutes(vs *conf_v1.VirtualServer) ([]*
 		}
 
 		vsrs = append(vsrs, vsr)
+		attached[vsrKey] = true
 	}
 
 	return vsrs, warnings
